@@ -328,3 +328,83 @@ def run(chk, repo, tier):
                                   witness='a run with two $ESTIMATION steps: the phi table of the first step is used')
     if n6 < 2:
         raise AnalysisError('Z6: table selection loops not found in results.py')
+    run_more(chk, repo)
+
+
+def run_more(chk, repo):
+    Z8 = chk.rule('Z8', 'MU values for PHI -> ETA: final estimates take precedence over the initial estimates of the model',
+                  floor=1)
+    Z9 = chk.rule('Z9', 'PhiTable views (iofv, etas, etc_data) drop the same rows (all columns after ID zero)', floor=3)
+    rm = repo.module('pharmpy.tools.external.nonmem.results')
+    f = rm.functions.get('_parse_individual_estimates')
+    if f is None:
+        raise AnalysisError('_parse_individual_estimates not found')
+    pe = f.params[1]
+
+    def kind(e):
+        t = unparse(e)
+        if pe in {x.id for x in ast.walk(e) if isinstance(x, ast.Name)}:
+            return 'estimates'
+        if 'inits' in t or 'parameters' in t:
+            return 'inits'
+        return None
+    found = 0
+    dict_defs = {n.targets[0].id: n.value for n in walk_no_nested(f.node) if isinstance(n, ast.Assign)
+                 and isinstance(n.targets[0], ast.Name) and isinstance(n.value, ast.Dict)}
+    for c in ast.walk(f.node):
+        if not (isinstance(c, ast.Call) and isinstance(c.func, ast.Attribute) and c.func.attr == 'subs' and c.args):
+            continue
+        # chain: X.subs(A).subs(B)  -> order [A, B]: the first substitution wins for symbols in both
+        chain = []
+        cur = c
+        while isinstance(cur, ast.Call) and isinstance(cur.func, ast.Attribute) and cur.func.attr == 'subs' and cur.args:
+            chain.append(cur.args[0])
+            cur = cur.func.value
+        chain = chain[::-1]
+        order = []
+        for a in chain:
+            if isinstance(a, ast.Name) and a.id in dict_defs:
+                a = dict_defs[a.id]
+            if isinstance(a, ast.Dict) and all(k is None for k in a.keys):
+                # {**A, **B}: the LAST spread wins -> precedence order is reversed
+                order += [kind(v) for v in a.values][::-1]
+            else:
+                order.append(kind(a))
+        order = [o for o in order if o]
+        if 'estimates' in order or 'inits' in order:
+            if any(isinstance(p, ast.Call) and p is not c and isinstance(p.func, ast.Attribute) and p.func.attr == 'subs'
+                   and p.func.value is c for p in ast.walk(f.node)):
+                continue    # inner link of a longer chain, reported at the outermost call
+            found += 1
+            ok = order[:1] == ['estimates'] and 'inits' in order
+            chk.instance(Z8, f'{unparse(c)[:80]}: precedence {order}')
+            if not ok:
+                chk.violation(Z8, rm.rel, f.name, unparse(c)[:100],
+                              f'the values substituted into MU_i have precedence {order}: the model\'s initial estimates must '
+                              f'only fill in what the final estimates do not provide (fixed parameters)', line=c.lineno,
+                              witness='SAEM/IMP run of a MU-referenced model whose final thetas differ from the initial ones: '
+                                      'every individual estimate is shifted by log(theta_final/theta_init)')
+    if found == 0:
+        raise AnalysisError('Z8: substitution of the parameter values into MU not recognised')
+    tm = repo.module('pharmpy.model.external.nonmem.table')
+    pt = tm.classes.get('PhiTable')
+    if pt is None:
+        raise AnalysisError('PhiTable not found')
+    filters = {}
+    for name, m in pt.methods.items():
+        for n in walk_no_nested(m.node):
+            if isinstance(n, ast.Assign) and isinstance(n.value, ast.Subscript) and isinstance(n.value.value, ast.Attribute) \
+                    and n.value.value.attr == 'loc' and any(isinstance(c, ast.Call) and isinstance(c.func, ast.Attribute)
+                                                             and c.func.attr == 'any' for c in ast.walk(n.value.slice)):
+                filters[name] = unparse(n.value.slice)
+    if len(filters) < 3:
+        raise AnalysisError(f'Z9: row filters of PhiTable not recognised ({filters})')
+    common = max(set(filters.values()), key=list(filters.values()).count)
+    for name, flt in sorted(filters.items()):
+        chk.instance(Z9, f'PhiTable.{name}: rows kept where {flt}')
+        if flt != common:
+            chk.violation(Z9, tm.rel, f'PhiTable.{name}', flt,
+                          f'the sibling views keep rows where {common}; this view uses another rule, so the views disagree '
+                          f'about which individuals exist', line=pt.methods[name].node.lineno,
+                          witness='an individual whose ETAs are exactly zero but whose OBJ/ETC are not: present in '
+                                  'individual_ofv and the covariances, missing from individual_estimates')
